@@ -557,7 +557,9 @@ func (env *ExecEnv) join(fields ...*field) *field {
 	sep := env.ifs()
 	for i, f := range fields {
 		if i > 0 {
-			dst.join(sep, false)
+			// the separator is quoted between quoted text ("$@")
+			q := len(dst.quote) != 0 && dst.quote[len(dst.quote)-1] && len(f.quote) != 0 && f.quote[0]
+			dst.join(sep, q)
 		}
 		dst.merge(f)
 	}
